@@ -317,7 +317,7 @@ func (w *world) oracleXDS(ns string, lbl map[string]string) string {
 		if len(f) != 4 {
 			return "cluster-name-shape " + c
 		}
-		if f[2] != "" && w.enhanced {
+		if f[2] != "" {
 			// a subset cluster comes from a DestinationRule subset: some rule declaring it is exported to ns
 			ok := false
 			for i := range w.drs {
@@ -328,7 +328,13 @@ func (w *world) oracleXDS(ns string, lbl map[string]string) string {
 				}
 			}
 			if !ok {
-				return "subset-cluster-from-unexported-rule " + wire.Enc(c) + " " + ns
+				if !w.enhanced {
+					if w.deferred == "" {
+						w.deferred = "dr-not-exported:legacy-merge-flag-off subset-cluster " + wire.Enc(c) + " " + ns
+					}
+				} else {
+					return "subset-cluster-from-unexported-rule " + wire.Enc(c) + " " + ns
+				}
 			}
 		}
 		k := hp{f[3], f[1]}
